@@ -97,6 +97,7 @@ func RunReplays(t *testing.T) {
 		}
 		EvalN(1)
 		if err != nil {
+			replayOverride = one
 			Fail(kind, raw, "%v", err)
 			t.Errorf("replay %s: %v", one, err)
 		} else {
